@@ -233,8 +233,16 @@ func runC23x(c c23Case) (*vstat.Failure, c23Res) {
 	return nil, res
 }
 
+// c23ExprStmts are expressions that need neither captures nor metrics, written
+// the way the grammar accepts them as statements.
+var c23ExprStmts = []string{
+	"(~1)", "(~\"\")", "(~(1 + 2))", "(/a+b/)", "(\"x\" =~ /a/)", "(\"x\" !~ /a/)", "(1 + 2)", "(1 < 2)", "(\"a\" + \"b\")",
+	"(/a/ && 1 < 2)", "(1 < 2 || /b/)", "(2 ** 3 % 4)", "(1)", "((1))", "(\"s\")", "(1.5)", "(len(\"x\"))", "5", "\"s\"", "2.5", "len(\"x\")", "tolower(\"X\")",
+	"(timestamp())", "(~len(\"x\") & 1)",
+}
+
 func TestC23(t *testing.T) {
-	st := vstat.New("C23", "checker-accepted programs from G with the formatter-relevant constructs emphasised: sub-expressions whose grouping overrides precedence at every level (and redundant parentheses), hidden and renamed ('as') metrics, quoted keys, limit, histogram boundaries incl. very small ones, float literals with integral value, negative literals, string literals with quotes and backslashes, const fragments and concatenations, decorators, else/otherwise, del-after, unary ~; plus the repository's example programs; non-trivial = accepted program with at least one emphasised construct; distinct by source")
+	st := vstat.New("C23", "checker-accepted programs from G with the formatter-relevant constructs emphasised: sub-expressions whose grouping overrides precedence at every level (and redundant parentheses), hidden and renamed ('as') metrics, quoted keys, limit, histogram boundaries incl. very small ones, float literals with integral value, negative literals, string literals with quotes and backslashes, const fragments and concatenations, decorators, else/otherwise, del-after, unary ~, expressions of every kind used as statements (parenthesised operator, unary, match and pattern expressions; bare primaries); plus the repository's example programs; non-trivial = accepted program with at least one emphasised construct; distinct by source")
 	st.Assumptions = []string{"the comparison uses a harness-side structural extract of mtail's AST (declarations with every attribute, statement tree, expression trees with operator, operand order, literal type and value, pattern and string texts) that ignores positions and the checker's inserted conversions"}
 	runRaw := func(raw json.RawMessage) *vstat.Failure {
 		c, err := vstat.JSON[c23Case](raw)
@@ -284,6 +292,15 @@ func TestC23(t *testing.T) {
 			defer st.Guard(func() any { return c })
 			g := gen.GenProgram(rt, feats)
 			c.Src = vstat.Q(g.P.Source())
+			exprStmt := ""
+			if rapid.IntRange(0, 4).Draw(rt, "exprstmt") == 0 {
+				// an expression of any kind used as a statement (the grammar takes a
+				// primary expression there, so everything else stands in parentheses)
+				exprStmt = rapid.SampledFrom(c23ExprStmts).Draw(rt, "stmt")
+				ls := strings.SplitAfter(string(c.Src), "\n")
+				at := rapid.IntRange(0, len(ls)).Draw(rt, "at")
+				c.Src = vstat.Q(strings.Join(ls[:at], "") + exprStmt + "\n" + strings.Join(ls[at:], ""))
+			}
 			f, res := runC23(c)
 			st.Eval()
 			nAccepted++
@@ -304,6 +321,9 @@ func TestC23(t *testing.T) {
 					case "redundant-parens", "quoted-key", "small-bucket-boundaries", "string-with-quote-or-backslash", "decorator-use", "del-after", "otherwise", "else", "unary-on-int":
 						st.Class(k)
 					}
+				}
+				if exprStmt != "" {
+					st.Class("expression-as-statement")
 				}
 				for _, kw := range []string{"hidden ", " as \"", "const ", " limit "} {
 					if strings.Contains(src, kw) {
